@@ -52,7 +52,9 @@ def build_ir(driver_src, config, repo=None, with_lib=True, extra_flags=(), keep=
                                                         os.path.join(tmp, "fm.ll")])
             files.append(os.path.join(tmp, "fm.ll"))
         run(["llvm-link-14", "-S"] + files + ["-o", os.path.join(tmp, "l.ll")])
-        run(["opt-14", "-S", "-passes=always-inline,cgscc(inline),function(sroa)", "-inline-threshold=100000000",
+        run(["opt-14", "-S", "-passes=always-inline,cgscc(inline),cgscc(inline),function(sroa)", "-inline-threshold=100000000",
+             "-inlinecold-threshold=100000000", "-inline-cold-callsite-threshold=100000000", "-inlinehint-threshold=100000000",
+             "-locally-hot-callsite-threshold=100000000", "-hot-callsite-threshold=100000000",
              os.path.join(tmp, "l.ll"), "-o", os.path.join(tmp, "o.ll")])
         with open(os.path.join(tmp, "o.ll")) as f:
             text = f.read()
